@@ -285,6 +285,38 @@ theorem roundtrip_number (v : MemValue) (hw : v.v2r = .numeric) (hr : v.r2v = .n
   · simp only [rawToValue, hr, hs, fromBytes, Bool.false_and, Bool.false_eq_true, if_false, beNat_toBytes]
     rw [Nat.mod_eq_of_lt hx]
 
+/-- the `signed = True` branch of `NumericValue` (no value of the current tree
+sets it, but the class supports it and a vendor bank may): every integer
+`-256^n/2 ≤ x < 256^n/2` is written as `n` two's-complement big-endian bytes
+that read back as `x`, for every width `n ≥ 1`. -/
+theorem roundtrip_signed (v : MemValue) (hw : v.v2r = .numeric) (hr : v.r2v = .numeric)
+    (hs : v.signed = true) (hn : 1 ≤ v.locs.length) (x : Int)
+    (hlo : -((256 : Int) ^ v.locs.length / 2) ≤ x) (hhi : x < (256 : Int) ^ v.locs.length / 2) :
+    ∃ raw, valueToRaw v (.int x) = some (.ok raw) ∧ raw.length = v.locs.length ∧
+      rawToValue v raw = some (.ok (.int x)) := by
+  refine ⟨toBytes (x % (256 : Int) ^ v.locs.length).toNat v.locs.length, ?_, toBytes_length _ _, ?_⟩
+  · have e1 : (WVal.int x == WVal.str [77, 65, 83, 75]) = false := rfl
+    have e2 : (WVal.int x == WVal.str [84, 77, 65, 83, 75]) = false := rfl
+    have hn0 : v.locs.length ≠ 0 := by omega
+    unfold valueToRaw
+    simp only [hw, hs, e1, e2, Bool.and_false, Bool.false_eq_true, if_false, intToBytes, if_true, hn0]
+    rw [if_pos ⟨hlo, hhi⟩]
+  · simp only [rawToValue, hr, hs]
+    rw [fromBytes_signed_toBytes _ hn x hlo hhi]
+
+/-- … and an integer that does not fit the signed width is refused with
+`OverflowError` (nothing is written). -/
+theorem signed_overflow (v : MemValue) (hw : v.v2r = .numeric) (hs : v.signed = true)
+    (hn : 1 ≤ v.locs.length) (x : Int)
+    (hx : x < -((256 : Int) ^ v.locs.length / 2) ∨ (256 : Int) ^ v.locs.length / 2 ≤ x) :
+    valueToRaw v (.int x) = some (.error .OverflowError) := by
+  have e1 : (WVal.int x == WVal.str [77, 65, 83, 75]) = false := rfl
+  have e2 : (WVal.int x == WVal.str [84, 77, 65, 83, 75]) = false := rfl
+  have hn0 : v.locs.length ≠ 0 := by omega
+  unfold valueToRaw
+  simp only [hw, hs, e1, e2, Bool.and_false, Bool.false_eq_true, if_false, intToBytes, if_true, hn0]
+  rw [if_neg (by omega)]
+
 /-- "… or string": an ASCII string (characters 0x01..0x7F) that fits is
 written NUL-terminated (when shorter than the field) and reads back unchanged. -/
 theorem roundtrip_string (v : MemValue) (hw : v.v2r = .string) (hr : v.r2v = .string)
